@@ -697,6 +697,16 @@ class SameWorkers(ResourceConstraint):
                     self.select_workers_1._selection_dict[res_work_1]
                     == self.select_workers_2._selection_dict[res_work_1]
                 )
+            else:
+                # a worker the second selection does not offer cannot be selected by both
+                self.set_z3_assertions(
+                    z3.Not(self.select_workers_1._selection_dict[res_work_1])
+                )
+        for res_work_2 in self.select_workers_2._selection_dict:
+            if res_work_2 not in self.select_workers_1._selection_dict:
+                self.set_z3_assertions(
+                    z3.Not(self.select_workers_2._selection_dict[res_work_2])
+                )
 
 
 class DistinctWorkers(ResourceConstraint):
